@@ -40,7 +40,23 @@ AGG = {
                      "with/without EXPECTFAIL, arguments equal to the name or containing a keyword, sections nested in "
                      "test functions; projection compared: function directives carrying a CMakeTest/CTest warning"),
 }
+AGG["C08"] = dict(invs=["C08_DocStemming", "C08_OffRemoves"], judge=lambda b: not b["dimpl"], flags="Flags",
+                  quick=[("MC_C08a", 5, 2), ("MC_C08b", 4, 2)], thorough=[("MC_C08a", 6, 3), ("MC_C08b", 5, 2)],
+                  sim=[("MC_C08a", 12, 3), ("MC_C08b", 10, 3)],
+                  rule="TLC enumerates programs over classes/attributes/members/functions (a) and macros/constructors/"
+                       "tests/sections/add_test/options inside a documented class (b) under every combination of the "
+                       "include_undocumented_* flags of the kinds that occur (16 resp. 64 combinations); each behaviour "
+                       "is run through the real Documenter under its flags and under the defaults; compared: the "
+                       "doccomment-stemming entries against the ideal and against their rendering under defaults, "
+                       "and absence of undocumented K entries when K is off")
 STD_INVS = ["StackRefinesInv", "NoFailure"]
+
+
+def current_dev(module):
+    import re
+    txt = open(lib.SPEC + "/" + module + ".tla").read()
+    m = re.search(r"^CurrentDev == \{(.*)\}", txt, re.M)
+    return bool(m and m.group(1).strip())
 
 
 def agg_property(run):
@@ -48,16 +64,29 @@ def agg_property(run):
     spec = AGG[pid]
     q = run.tier == "quick"
     for module, maxlen, maxdepth in spec["quick" if q else "thorough"]:
+        flags = spec.get("flags", "OnlyAllOn")
         res = tlc_agg(run, "%s(len<=%d,depth<=%d)" % (module, maxlen, maxdepth), module,
-                      cfg(spec["invs"] + STD_INVS, maxlen, maxdepth))
-        replay(run, pid, res, run.seed, judge=spec["judge"], limit=None if q else 80000)
+                      cfg(spec["invs"] + STD_INVS, maxlen, maxdepth, flags=flags))
+        if current_dev(module):
+            # the invariants above hold for the design (Dev = {}); behaviours for replay come from the
+            # model of the code as it is (Dev = CurrentDev) so that known findings can be told from new ones
+            res = tlc_agg(run, "%s(len<=%d,depth<=%d,Dev=Current)" % (module, maxlen, maxdepth), module,
+                          cfg([], maxlen, maxdepth, dev="CurrentDev", flags=flags))
+        replay(run, pid, res, run.seed, judge=spec["judge"], limit=20000 if q else 120000)
     # long programs: random behaviours of the same specification (invariants are checked on every state)
     for module, maxlen, maxdepth in spec["sim"]:
         res = tlc_agg(run, "%s(simulate,len<=%d)" % (module, maxlen), module,
-                      cfg(spec["invs"] + STD_INVS, maxlen, maxdepth), simulate=150 if q else 2500, depth=3 * maxlen,
+                      cfg([] if current_dev(module) else spec["invs"] + STD_INVS, maxlen, maxdepth,
+                          flags=spec.get("flags", "OnlyAllOn"), dev="CurrentDev"), simulate=150 if q else 2500, depth=3 * maxlen,
                       seed=run.seed, workers=8, coverage=False)
         replay(run, pid, res, run.seed + 1, judge=lambda b, j=spec["judge"], m=maxlen: j(b) and len(b["prog"]) > 6,
                limit=4000 if q else 40000)
+    # binding B: executions of the real aggregator on programs TLC did not choose, validated by TLC
+    import aggtrace
+    traces = aggtrace.random_batch(run.seed, 400 if q else 4000, flags="random" if pid == "C08" else "default")
+    aggtrace.validate_batch(run, traces)
+    run.sample({"recorded_trace": traces[0]["id"], "events": len(traces[0]["events"]),
+                "first_event": traces[0]["events"][0] if traces[0]["events"] else None})
     run.exhaustive = True
     run.assumptions += ["re.sub and str.upper are trusted library functions (their results are inputs of the spec)",
                         "strip patterns are drawn from {'', '^_p_'}; the kwargs trigger string is ':keyword'",
